@@ -4,13 +4,20 @@
 // is sent to the REAL api.DeleteHandler (fiber app, real storage.LocalBackend on /dev/shm, real
 // database.DuckDB with Arc's configuration and sandbox) against a two-file Parquet measurement whose
 // rows are the full product of nullable column values. Each case is a dry run followed by a confirmed
-// delete on a freshly materialised copy of the dataset.
+// delete on a freshly materialised copy of the dataset (fresh paths, so no cache can carry over).
 //
-// Oracle (never Arc's code): an independent plain DuckDB connection evaluates
-// `(pred) IS TRUE / IS FALSE / else NULL` per row of the generator's ground-truth table; a from-the-spec
-// Kleene evaluator in Go must agree with it on every predicate (else the harness stops with exit 2).
-// Judged: dry run changes nothing and reports |selected|; after the confirmed delete the measurement is
-// before minus selected (multiset of complete rows); deleted_count equals the rows that disappeared.
+// Oracle (never Arc's code): an independent plain DuckDB connection evaluates the predicate as a
+// BOOLEAN select-list value per row of the generator's ground-truth table (TRUE selects; FALSE and
+// NULL do not); a from-the-standard Kleene evaluator in Go must agree with it on every row of every
+// predicate (else the harness stops with exit 2). Judged: the dry run changes nothing and reports
+// |selected|; after the confirmed delete the measurement is before minus selected (multiset of
+// complete rows); deleted_count equals the number of rows that disappeared.
+//
+// thorough: all 64 989 expressions + 1=1. quick: all of depth <= 1 plus one representative of every
+// semantically distinct depth-2 selection (see quickSubset). Cases are sharded over 16 worker
+// processes (re-exec of this binary; VERIF_C10_WORKERS overrides, VERIF_C10_DEBUG=1 prints timings).
+// Failures are minimised (sub-expression replacement, layout, then delta debugging on the rows) and
+// reported per class as `<violated oracle>|<minimal predicate>[|layout=B]`.
 package main
 
 import (
@@ -1251,7 +1258,7 @@ func main() {
 	run.Coverage["exhaustive"] = complete
 	run.Coverage["worker_processes"] = nProcs
 	run.Coverage["enumeration_s"] = tEnum.Seconds()
-	run.Assume("the oracle is DuckDB's own three-valued evaluation of (pred) IS TRUE on the generator's table, cross-checked on every row of every predicate against a from-the-standard Kleene evaluator in the harness; a disagreement stops the check (exit 2)")
+	run.Assume("the oracle is DuckDB's own three-valued value of the predicate (selected iff TRUE) on the generator's table, cross-checked on every row of every predicate against a from-the-standard Kleene evaluator in the harness; a disagreement stops the check (exit 2)")
 	run.Assume("when the predicate mentions column b and file 2 has no such column (layout A) the handler reports that file in failed_files with HTTP 207; a missing column is outside the property's quantifier (nullable columns), so such a file is only required to be left untouched and the other file is judged in full; " + fmt.Sprint(tolerated) + " cases")
 	run.Assume("LocalBackend only (the S3/Azure rewrite path issues the same SQL but is not driven); both requests carry confirm=true; dataset values beyond {NULL,0,1}/{NULL,'a','ab'}/{NULL,true} and predicates deeper than 2 are outside the bound")
 	fmt.Printf("C10 predicates=%d cases=%d judged=%d nontrivial=%d distinct_truth_vectors=%d (nontrivial %d) http200=%d excused=%d failing=%d classes=%d enumeration=%.1fs\n",
